@@ -60,8 +60,49 @@ pub fn exec(w: &[&str], obs: &mut Obs) -> Option<String> {
             let t2 = TextTape::from_slice(&out).map(|t| show::text_tape(t.tokens())).unwrap_or("err:parse".to_string());
             Some(format!("{} {} {} {}", t1, hex(&out), t2, if t1 == t2 { "same" } else { "DIFFERENT" }))
         }
+        // implementation-only: `write_tape` into a writer that takes <cap> bytes and then fails must return
+        // Err (never panic) iff the output is longer, and what reached the writer is a prefix of the full output
+        ["x-wtapew", c, f, cap_s, h] => {
+            let ic: u8 = c.parse().ok()?;
+            let fac: u8 = f.parse().ok()?;
+            let cap: usize = cap_s.parse().ok()?;
+            let input = unhex(h)?;
+            let case = w.join(" ");
+            let tape = match TextTape::from_slice(&input) { Ok(t) => t, Err(_) => return Some("err:parse".to_string()) };
+            let full = match write_with(&tape, ic, fac) { Ok(o) => o, Err(e) => return Some(e) };
+            let mut sink = FailingWriter { cap, got: vec![] };
+            let res = {
+                let mut wr = TextWriterBuilder::new().indent_char(ic).indent_factor(fac).from_writer(&mut sink);
+                wr.write_tape(&tape)
+            };
+            let ok = res.is_ok();
+            if !full.starts_with(&sink.got) || sink.got.len() != cap.min(full.len()) {
+                obs.violation("failing-writer-prefix", &case, &format!("writer got {} full output {}", hex(&sink.got), hex(&full)));
+            }
+            if ok != (cap >= full.len()) {
+                obs.violation("failing-writer-result", &case, &format!("cap {} output length {} result ok={}", cap, full.len(), ok));
+            }
+            if let Err(e) = &res {
+                if !matches!(e.kind(), jomini::ErrorKind::Io(_)) { obs.violation("failing-writer-error-kind", &case, &format!("{:?}", e.kind())); }
+            }
+            obs.count(if ok { "wtapew:ok" } else { "wtapew:err" });
+            Some(if ok { "ok".to_string() } else { format!("err:{}", sink.got.len()) })
+        }
         _ => None,
     }
+}
+
+/// a sink that accepts `cap` bytes and then fails every non-empty write
+pub struct FailingWriter { pub cap: usize, pub got: Vec<u8> }
+impl std::io::Write for FailingWriter {
+    fn write(&mut self, buf: &[u8]) -> std::io::Result<usize> {
+        let room = self.cap - self.got.len();
+        if room == 0 && !buf.is_empty() { return Err(std::io::Error::new(std::io::ErrorKind::Other, "writer full")); }
+        let k = room.min(buf.len());
+        self.got.extend_from_slice(&buf[..k]);
+        Ok(k)
+    }
+    fn flush(&mut self) -> std::io::Result<()> { Ok(()) }
 }
 
 /// Known finding W1 (writer.rs:750/765): a parameter block with a *scalar* value leaves the machine
@@ -96,7 +137,12 @@ fn shape_mixed_nested_operator(toks: &[&str]) -> bool {
         if toks[i] != "M" { continue; }
         let mut open: Vec<&str> = vec![];
         for t in &toks[i + 1..] {
-            if t.starts_with('E') { break; }
+            if t.starts_with('E') {
+                // the end of an object-valued parameter block is a raw `]`: no `write_end`, the mode stays on
+                let start: usize = t[1..].parse().unwrap_or(0);
+                if start >= 1 && (toks[start - 1].starts_with("P:") || toks[start - 1].starts_with("N:")) { open.pop(); continue; }
+                break;
+            }
             if (t.starts_with('A') || t.starts_with('O')) && t[1..].trim_start_matches('m').parse::<usize>().is_ok() { open.push(t); continue; }
             if t.starts_with("Op:") {
                 if let Some(c) = open.last() { if c.starts_with('O') && !c.starts_with("Om") { return true; } }
@@ -106,13 +152,35 @@ fn shape_mixed_nested_operator(toks: &[&str]) -> bool {
     false
 }
 
+/// Reported with C14_roundtrip_full (`FFields.paramHdr`): the value of a parameter block directly followed by a
+/// container is the header of that container (`[[p] v ] { … }`); `write_tape` writes `[[p] v { … }]`, which
+/// re-reads as an object-valued block.
+fn shape_param_header(toks: &[&str]) -> bool {
+    (0..toks.len()).any(|i| (toks[i].starts_with("P:") || toks[i].starts_with("N:")) && toks.get(i + 1).map_or(false, |t| t.starts_with("H:")))
+}
+
+/// Reported with C14_roundtrip_full (`gluesOp`): two adjacent operator tokens in the array part of a mixed array
+/// are written glued in mixed mode: `= =` becomes `==`, `< =` becomes `<=`.
+fn shape_adjacent_operators(toks: &[&str]) -> bool {
+    (0..toks.len()).any(|i| matches!(toks[i], "Op:eq" | "Op:lt" | "Op:gt") && matches!(toks.get(i + 1).copied(), Some("Op:eq") | Some("Op:exact")))
+}
+
+/// Reported with C14_roundtrip_full (`bareQuestion`): the bare scalar `?` followed by `=` / `==` directly behind the
+/// first element of an array: written `{ 1 ?=b }`, which re-reads as the object `1 ?= b`.
+fn shape_bare_question(toks: &[&str]) -> bool {
+    (0..toks.len()).any(|i| toks[i].starts_with("Am") && toks.get(i + 1).map_or(false, |t| t.starts_with("U:") || t.starts_with("Q:"))
+        && toks.get(i + 2).copied() == Some("M") && toks.get(i + 3).copied() == Some("U:3f")
+        && matches!(toks.get(i + 4).copied(), Some("Op:eq") | Some("Op:exact")))
+}
+
 /// The runner keeps at most 200 violations per run: record only the first few witnesses of each
 /// *known* finding so that they can never crowd out a new one (all of them are still counted).
-static KNOWN_SEEN: [std::sync::atomic::AtomicUsize; 5] = [std::sync::atomic::AtomicUsize::new(0), std::sync::atomic::AtomicUsize::new(0), std::sync::atomic::AtomicUsize::new(0), std::sync::atomic::AtomicUsize::new(0), std::sync::atomic::AtomicUsize::new(0)];
+static KNOWN_SEEN: [std::sync::atomic::AtomicUsize; 8] = [std::sync::atomic::AtomicUsize::new(0), std::sync::atomic::AtomicUsize::new(0), std::sync::atomic::AtomicUsize::new(0), std::sync::atomic::AtomicUsize::new(0), std::sync::atomic::AtomicUsize::new(0), std::sync::atomic::AtomicUsize::new(0), std::sync::atomic::AtomicUsize::new(0), std::sync::atomic::AtomicUsize::new(0)];
 const KNOWN_KEEP: usize = 40;
 
 fn report(obs: &mut Obs, kind: &str, case: &str, detail: &str) {
-    let slot = match kind { "roundtrip-param-scalar" => Some(0), "roundtrip-mixed-nested-operator" => Some(1), "roundtrip-bom-key" => Some(2), "roundtrip-empty-first-element" => Some(3), "roundtrip-header-empty-body" => Some(4), _ => None };
+    let slot = match kind { "roundtrip-param-scalar" => Some(0), "roundtrip-mixed-nested-operator" => Some(1), "roundtrip-bom-key" => Some(2), "roundtrip-empty-first-element" => Some(3), "roundtrip-header-empty-body" => Some(4),
+        "roundtrip-param-header" => Some(5), "roundtrip-mixed-adjacent-operators" => Some(6), "roundtrip-mixed-bare-question-key" => Some(7), _ => None };
     if let Some(i) = slot {
         if KNOWN_SEEN[i].fetch_add(1, std::sync::atomic::Ordering::Relaxed) >= KNOWN_KEEP {
             obs.count(&format!("known-finding-not-listed-again:{}", kind));
@@ -137,6 +205,12 @@ fn oracle(_input: &[u8], t1: &str, out: &[u8], ic: u8, fac: u8, rt: bool, case: 
     let is_array = |t: &str| t.starts_with('A') && t[1..].trim_start_matches('m').parse::<usize>().is_ok();
     let w4 = (0..toks.len()).any(|i| is_array(toks[i]) && !is_empty_at(i) && is_empty_at(i + 1));
     let w5 = (0..toks.len()).any(|i| toks[i].starts_with("H:") && is_empty_at(i + 1));
+    let w6 = shape_param_header(&toks);
+    let w7 = shape_adjacent_operators(&toks);
+    let w8 = shape_bare_question(&toks);
+    if rt && w6 { obs.count("shape:param-header"); }
+    if rt && w7 { obs.count("shape:mixed-adjacent-operators"); }
+    if rt && w8 { obs.count("shape:mixed-bare-question-key"); }
     if rt && w4 { obs.count("shape:empty-first-element"); }
     if rt && w5 { obs.count("shape:header-empty-body"); }
     if rt && w1 { obs.count("shape:param-scalar"); }
@@ -145,7 +219,9 @@ fn oracle(_input: &[u8], t1: &str, out: &[u8], ic: u8, fac: u8, rt: bool, case: 
     // everything else keeps the general kinds and is a real violation
     let kind = |general: &'static str| -> &'static str {
         if w3 { "roundtrip-bom-key" } else if w1 { "roundtrip-param-scalar" } else if w2 { "roundtrip-mixed-nested-operator" }
-        else if w4 { "roundtrip-empty-first-element" } else if w5 { "roundtrip-header-empty-body" } else { general }
+        else if w4 { "roundtrip-empty-first-element" } else if w5 { "roundtrip-header-empty-body" }
+        else if w6 { "roundtrip-param-header" } else if w7 { "roundtrip-mixed-adjacent-operators" }
+        else if w8 { "roundtrip-mixed-bare-question-key" } else { general }
     };
     match TextTape::from_slice(out) {
         Err(e) => {
@@ -363,6 +439,46 @@ pub fn gen_c14(g: &mut Gen) {
         emit_input(g, ic, fac, t, true);
     }
     g.count("ghost-shape-probes");
+
+    // 2e. the FULL document type of C01 (`FFields`, what C14_roundtrip_full is about): random valid documents under
+    // random layouts from the text-tape slice's generator — mixed containers with containers and `k=v` groups in
+    // the array part, header / parameter block as first field, parameter value heading a container, arrays that
+    // turn mixed, ghosts, implicit `=`, variables.  Objects that continue as a bare list (`Om…`) are outside the
+    // property's quantifier: those go through the correspondence only.
+    let n = g.budget(2_500, 40_000);
+    for _ in 0..n {
+        let text = crate::props::c01::gen_full_doc(&mut g.rng);
+        if text.len() > 600 { continue; }
+        let rt = match TextTape::from_slice(&text) {
+            Ok(t) => !show::text_tape(t.tokens()).split(',').any(|t| t.starts_with("Om")),
+            Err(_) => false,
+        };
+        let (ic, fac) = indent_cfg(&mut g.rng);
+        emit_input(g, ic, fac, &text, rt);
+        g.count(if rt { "full-type:rt" } else { "full-type:object-list(not-rt)" });
+    }
+    // the three shapes reported with C14_roundtrip_full, a few probes each
+    for t in [&b"a={ [[p] v ] { b } }"[..], b"a={ [[!p] v ] { b=c } d=e }", b"a={ 1 b = = c }", b"a={ 1 b < = c }", b"a={ {x} 1 b > == c }",
+              b"a={ 1 ? = b }", b"a={ 1 ? == b c=d }"] {
+        let (ic, fac) = indent_cfg(&mut g.rng);
+        emit_input(g, ic, fac, t, true);
+    }
+    g.count("full-document-type");
+
+    // 2f. `write_tape` into a writer that fails after n bytes, n = 0..=len (implementation-only)
+    for t in [&b"a=b"[..], b"a={ b=c d={ 1 2 } } e=rgb { 1 2 3 }", b"a={ [[p] k=v ] x=\"q\" } b={ 1 c=d { e } }", b"k > 1 z={ } y={ {} }"] {
+        let full_len = TextTape::from_slice(t).ok().and_then(|tp| write_with(&tp, b' ', 2).ok()).map_or(0, |o| o.len());
+        for cap in 0..=full_len + 1 { g.emit(format!("x-wtapew 32 2 {} {}", cap, hex(t))); }
+    }
+    let n = g.budget(300, 6_000);
+    for _ in 0..n {
+        let text = crate::props::c01::gen_full_doc(&mut g.rng);
+        if text.len() > 300 { continue; }
+        let (ic, fac) = indent_cfg(&mut g.rng);
+        let cap = g.rng.below(2 * text.len() + 4);
+        g.emit(format!("x-wtapew {} {} {} {}", ic, fac, cap, hex(&text)));
+    }
+    g.count("failing-writer");
 
     // 3. everything in C01's model including objects that continue as a bare list (not preserved: documented)
     let n = g.budget(1_000, 20_000);
